@@ -325,8 +325,12 @@ def ply_tree(spellings):
 def dddmp_text(header, nodes):
     """text-mode DDDMP file from the structured header and node lines"""
     nv, vi, ordv, sup, ns, ids, perm, aux, nr, roots, nn = header
-    out = ['.ver DDDMP-2.0', '.mode A', f'.varinfo {vi}', f'.nnodes {nn}', f'.nvars {nv}',
-           f'.nsuppvars {ns}']
+    out = ['.ver DDDMP-2.0', '.mode A', f'.varinfo {vi}']
+    # optional header lines that do not change the contents: a diagram name (every third
+    # file, decided by the contents so that a case replays identically)
+    if (nn + nr + ns) % 3 == 0:
+        out.append('.dd diagram_%d' % nn)
+    out += [f'.nnodes {nn}', f'.nvars {nv}', f'.nsuppvars {ns}']
     if sup is not None:
         out.append('.suppvarnames ' + ' '.join(vname(v) for v in sup))
     if ordv is not None:
@@ -587,7 +591,10 @@ class Impl:
                 r = f._apply(o, F(v))
             return self._h(m, r)
         if name == 'eq':
-            return F(args[0]) == F(args[1])
+            r = F(args[0]) == F(args[1])
+            if r and hash(F(args[0])) != hash(F(args[1])):
+                raise AssertionError('equal Functions with different hashes')
+            return r
         if name == 'ne':
             return F(args[0]) != F(args[1])
         if name == 'le':
@@ -611,7 +618,10 @@ class Impl:
         if name == 'negated':
             return F(args[0]).negated
         if name == 'len':
-            return len(F(args[0]))
+            f = F(args[0])
+            if f.dag_size != len(f):
+                raise AssertionError('Function.dag_size differs from len(Function)')
+            return len(f)
         if name == 'int':
             return int(F(args[0]))
         if name == 'drop':
@@ -703,7 +713,13 @@ class Impl:
         if name in ('add_expr_text', 'add_expr_lr'):
             return self._h(m, a.add_expr(str(args[0])))
         if name == 'to_expr':
-            return a.to_expr(F(args[0]))
+            f = F(args[0])
+            e = a.to_expr(f)
+            if f.to_expr() != e:
+                raise AssertionError('Function.to_expr differs from BDD.to_expr')
+            str(f)
+            str(a)
+            return e
         if name == 'shutdown':
             try:
                 a._bdd.__del__()
